@@ -393,7 +393,11 @@ func (r *Run) Dump(path string) error {
 	return os.WriteFile(path, b, 0o644)
 }
 
-func (r *Run) Merge(path string) error {
+func (r *Run) Merge(path string) error { return r.MergePrefixed(path, "") }
+
+// MergePrefixed merges the dump of another rig's Run of the same property; its counters, sets and case signatures
+// get the given prefix so that they cannot collide with this run's.
+func (r *Run) MergePrefixed(path, prefix string) error {
 	b, err := os.ReadFile(path)
 	if err != nil {
 		return err
@@ -406,7 +410,7 @@ func (r *Run) Merge(path string) error {
 	defer r.mu.Unlock()
 	r.evaluations += d.Evaluations
 	for _, s := range d.Sigs {
-		r.sigs[s] = struct{}{}
+		r.sigs[prefix+s] = struct{}{}
 	}
 	for _, s := range d.Samples {
 		if len(r.samples) < r.maxSamples {
@@ -416,9 +420,10 @@ func (r *Run) Merge(path string) error {
 	r.violations = append(r.violations, d.Violations...)
 	r.inconclusive = append(r.inconclusive, d.Inconclusive...)
 	for k, v := range d.Counters {
-		r.counters[k] += v
+		r.counters[prefix+k] += v
 	}
 	for k, vs := range d.Sets {
+		k = prefix + k
 		if r.sets[k] == nil {
 			r.sets[k] = map[string]struct{}{}
 		}
